@@ -666,6 +666,18 @@ fn get_mainline_depth<E: Event>(
     Ok(0)
 }
 
+/// Verification hook: the graph `reverse_topological_power_sort` builds for one event.
+#[cfg(ruma_verif)]
+#[doc(hidden)]
+pub fn verif_add_event_and_auth_chain_to_graph<E: Event>(
+    graph: &mut HashMap<E::Id, HashSet<E::Id>>,
+    event_id: E::Id,
+    auth_diff: &HashSet<E::Id>,
+    fetch_event: impl Fn(&EventId) -> Option<E>,
+) {
+    add_event_and_auth_chain_to_graph(graph, event_id, auth_diff, fetch_event)
+}
+
 fn add_event_and_auth_chain_to_graph<E: Event>(
     graph: &mut HashMap<E::Id, HashSet<E::Id>>,
     event_id: E::Id,
